@@ -9,14 +9,14 @@ import (
 func init() { register("C04", propC04) }
 
 type hsSpec struct {
-	A, B       epCfg
-	SNAP       bool
-	DelayA     time.Duration // start delay of each side
-	DelayB     time.Duration
-	Faults     faultSet
-	Stale      bool // re-inject recorded handshake packets after establishment
-	SilentPeer int  // 0 no, 1 peer never answers, 2 only COOKIE-ACKs are lost
-	CloseServerAt int // >0: close the server's transport after that many wire events
+	A, B          epCfg
+	SNAP          bool
+	DelayA        time.Duration // start delay of each side
+	DelayB        time.Duration
+	Faults        faultSet
+	Stale         bool // re-inject recorded handshake packets after establishment
+	SilentPeer    int  // 0 no, 1 peer never answers, 2 only COOKIE-ACKs are lost
+	CloseServerAt int  // >0: close the server's transport after that many wire events
 }
 
 // probe sends one message each way on stream sid and checks delivery.
@@ -381,10 +381,10 @@ func (m *Sim) snapConnect(ca, cb epCfg) {
 func propC04(j *Job) {
 	faults := faultSet{Drop: true, Dup: true, Late: true, Swap: true}
 	type role struct {
-		name   string
-		aSrv   bool
-		bSrv   bool
-		snap   bool
+		name string
+		aSrv bool
+		bSrv bool
+		snap bool
 	}
 	roles := []role{{"cs", false, true, false}, {"cc", false, false, false}, {"snap", false, false, true}}
 	orders := []struct {
